@@ -11,6 +11,15 @@ NOTE = ("Trusted base: the frozen effect / identity tables in kdverif (one reaso
         "the value-level behaviour of the property (see DESIGN.md section 4, 'N' lists).")
 
 CLAIMS = {
+    "C20": ("crash-closure typestate: abstract interpretation of the copy functions over a finite persistent-state domain, closed under 'die after / inside any effect, run again'",
+            "Decides for copy_folder_from_global_to_local and its image-folder twin, over the closure of persistent states "
+            "(folder present, start marker, end marker, data none/partial/complete, origin user/auto) reachable through any "
+            "number of interrupted attempts: (I1) a normal return leaves complete data unless the folder is user-provided - "
+            "reported per crash point; (I2) a folder with both markers is never deleted or re-copied; (I3) was_copied / "
+            "was_deleted are true exactly on runs that copied / deleted; (I4) start marker, copy, end marker in this order on "
+            "every path; (I5) both functions have the same abstraction. Six crash windows of I1 (three per function) are "
+            "genuine defects of the pinned tree, listed in known_findings.json and reported as KNOWN-FINDING. Byte identity "
+            "and durability are not decided."),
     "C14": ("polynomial bound facts with clamp case-splits, dimensional (axis-unit) analysis, def-use identity of recorded parameters, paired-operation path rules, pattern isomorphism, rational-function identity",
             "Decides: for the 10 offset draws of the crop / erase transforms, lo >= 0 and hi - 1 + extent <= image dimension "
             "as polynomial facts (max/min case-split, dominating branch conditions), row offsets paired with height, column "
